@@ -325,10 +325,31 @@ def run_unit(unit_name, template_rel, variant):
         res.setdefault("needs_contract", []).extend("%s (possible overflow of an increment: `%s`)" % (f["function"], f["clause"][:60]) for f in soft)
     sem = res["failures"]
     res["stderr"] = (err or "")[-6000:]
+    # ownership conditions on operator values (structural, decided on the extracted struct definitions;
+    # independent of the solver, so they are evaluated even when Verus cannot type the changed unit)
+    own_fail = []
+    if (stats or {}).get("plain_values"):
+        res["ownership_conditions"] = []
+        for (sname, spath, cells_, otags_) in stats["plain_values"]:
+            res["ownership_conditions"].append(dict(struct=sname, file=spath, status="plain value" if not cells_ else "holds a shared cell: " + ", ".join(cells_)))
+            if cells_:
+                own_fail.append(dict(function="%s (operator value is plain data)" % sname, tags=otags_,
+                                     kind="ownership condition not satisfied",
+                                     clause="struct %s holds no shared mutable cell" % sname,
+                                     text="the operator value `%s` (%s) has a field whose type mentions %s: the derived Clone shares that cell between the subscriptions of clones of one pipeline (per-subscription state must be created in actual_subscribe)" % (sname, spath, ", ".join(cells_))))
     if other or vr.get("encountered-vir-error"):
+        if own_fail:
+            # the struct-level obligation is decided although the rest of the unit is not
+            res["failures"] = own_fail
+            res["status"] = "violated"
+            res["undecided_rest"] = "verus could not process the unit: " + "; ".join(o["head"] for o in other)[:300]
+            return res
         res["status"] = "undecided"
         res["undecided"] = "verus could not process the unit: " + "; ".join(o["head"] for o in other)[:600]
         return res
+    if own_fail:
+        res["failures"].extend(own_fail)
+        sem = res["failures"]
     if "rlimit" in (err or "").lower() and "exceeded" in (err or "").lower():
         res["status"] = "undecided"
         res["undecided"] = "resource limit exceeded"
@@ -349,17 +370,6 @@ def run_unit(unit_name, template_rel, variant):
         res["status"] = "undecided"
         res["undecided"] = "zero obligations generated"
         return res
-    # ownership conditions on operator values (structural, from the extracted struct definitions)
-    if (stats or {}).get("plain_values"):
-        res["ownership_conditions"] = []
-        for (sname, spath, cells_) in stats["plain_values"]:
-            res["ownership_conditions"].append(dict(struct=sname, file=spath, status="plain value" if not cells_ else "holds a shared cell: " + ", ".join(cells_)))
-            if cells_:
-                res["failures"].append(dict(function="%s (operator value is plain data)" % sname, tags=["C13"],
-                                            kind="ownership condition not satisfied",
-                                            clause="struct %s holds no shared mutable cell" % sname,
-                                            text="the operator value `%s` (%s) has a field whose type mentions %s: the derived Clone shares that cell between the subscriptions of clones of one pipeline (per-subscription state must be created in actual_subscribe)" % (sname, spath, ", ".join(cells_))))
-                res["status"] = "violated"
     if res["status"] == "ok" and (stats or {}).get("yield_points_missing"):
         res["status"] = "undecided"
         res["undecided"] = "yield point(s) no longer found, the re-entry obligation could not be placed: " + "; ".join(stats["yield_points_missing"])
@@ -379,14 +389,17 @@ def run_unit(unit_name, template_rel, variant):
                 probes.append((i_ + 1, pm_.group(2), [x for x in pm_.group(3).split(",") if x.startswith("C")], owner[-1] if owner else pm_.group(2), pm_.group(1) == "FREEPROBE"))
         res["borrow_probes"] = []
         pblocks = [b for b in re.split(r"\n(?=error)", "\n" + (perr or "")) if b.strip().startswith("error")]
+        free_lines = [ln for (ln, _, _, _, fr_) in probes if fr_]
+        def moved_at_free_probe(b):
+            # E0382 at a free-probe line: the handle was already moved (see below) — not an evaluation problem
+            return re.search(r"error\[E0382\]", b) and any(re.search(r"^\s*%d\s*\|" % fl, b, re.M) for fl in free_lines)
         for (ln, pname, ptags, owner, must_be_free) in probes:
             hit = [b for b in pblocks if re.search(r"error\[E0(502|499|503|506|505)\]", b) and re.search(r"^\s*%d\s*\|" % ln, b, re.M)]
-            other = [b for b in pblocks if not re.search(r"error\[E0(502|499|503|506|505)\]", b) and "aborting due to" not in b]
+            other = [b for b in pblocks if not re.search(r"error\[E0(502|499|503|506|505)\]", b) and "aborting due to" not in b and not moved_at_free_probe(b)]
             if must_be_free:
                 # the converse probe: a mutable use of the cell right before the foreign call must be ACCEPTED.
                 # E0382 at the probe line (the handle was already MOVED, e.g. into the inner observer) also
                 # means "free": a live borrow of the handle would have made that move itself an error (E0505)
-                other = [b for b in other if not (re.search(r"error\[E0382\]", b) and re.search(r"^\s*%d\s*\|" % ln, b, re.M))]
                 if hit:
                     res["borrow_probes"].append(dict(probe=pname, status="LENT at a call that may re-enter the cell"))
                     if owner in res["functions"]:
